@@ -18,6 +18,38 @@ def _runner_spec():
                 budget_quick_ms=3000, budget_thorough_ms=90000)
 
 
+def reader_contract_link():
+    """unit c18_visitor uses read_instruction by contract; the clauses must be what unit c18_bytecode proves (textual check)."""
+    import re
+    norm = lambda t: re.sub(r'\s+', ' ', t)
+    B = norm(open(os.path.join(common.VERIF, 'contracts', 'c18_bytecode.vspec'), encoding='utf-8').read())
+    V = norm(open(os.path.join(common.VERIF, 'contracts', 'c18_visitor.vspec'), encoding='utf-8').read())
+    m = re.search(r'@@spec BytecodeReader::read_instruction ret=r (.*?)@@ghost BytecodeReader::read_instruction', B)
+    if not m:
+        return ['c18_bytecode.vspec: `@@spec BytecodeReader::read_instruction` not found']
+    proved = m.group(1)
+    bad = []
+    for clause in ['requires dec_wire(old(self).code@, old(self).offset as int).is_some()', 'r.0 == old(self).offset',
+                   'inst_wire(r.2).op == dec_wire(old(self).code@, old(self).offset as int).unwrap().0.op',
+                   'inst_wire(r.2).vs =~= dec_wire(old(self).code@, old(self).offset as int).unwrap().0.vs',
+                   'inst_wire(r.2).tail == dec_wire(old(self).code@, old(self).offset as int).unwrap().0.tail',
+                   'final(self).offset as int == dec_wire(old(self).code@, old(self).offset as int).unwrap().1',
+                   'final(self).code@ == old(self).code@']:
+        if clause not in proved:
+            bad.append('unit c18_bytecode no longer proves: ' + clause)
+    for clause in ['fn read_instruction(&mut self) -> (r: (usize, BytecodeOpcode, BytecodeInstruction)) requires dec_wire(old(self).code@, old(self).offset as int).is_some(), ensures r.0 == old(self).offset, '
+                   'inst_wire(r.2) == dec_wire(old(self).code@, old(self).offset as int).unwrap().0, final(self).offset as int == dec_wire(old(self).code@, old(self).offset as int).unwrap().1, '
+                   'final(self).code@ == old(self).code@,']:
+        if clause not in V:
+            bad.append('unit c18_visitor: the assumed contract of read_instruction changed')
+    # dec_seq must be the same definition in both units
+    d1 = re.search(r'pub open spec fn dec_seq\(s: Seq<u8>, pos: int\) -> Option<Seq<Wire>> (.*?)\} \} \}', B)
+    d2 = re.search(r'pub open spec fn dec_seq\(s: Seq<u8>, pos: int\) -> Option<Seq<Wire>> (.*?)\} \} \}', V)
+    if not d1 or not d2 or d1.group(1) != d2.group(1):
+        bad.append('dec_seq is defined differently in the two units')
+    return bad
+
+
 def _pkg_runner():
     import prop_c20
     prop_c20._link_pkgs()       # Sema::new looks for `pkgs` next to an ancestor of the running executable
@@ -69,6 +101,11 @@ def run(tier):
         pre_und.append('runner generator: %s' % e)
     units = [dict(vspec=os.path.join(common.VERIF, 'contracts', 'c18_bytecode.vspec'), extra_overlay=extra)] if extra else []
     try:
+        for w in reader_contract_link():
+            pre_und.append('contract link reader -> visitor unit: ' + w)
+    except Exception as e:
+        pre_und.append('contract link check failed: %s' % e)
+    try:
         units.append(dict(vspec=os.path.join(common.VERIF, 'contracts', 'c18_visitor.vspec'), extra_overlay=gen_c18.generate_visitor_overlay(common.repo_root())))
     except Exception as e:
         pre_und.append('visitor contract generator: %s' % e)
@@ -90,8 +127,8 @@ def run(tier):
         dict(lemma='theorem_seq_roundtrip', statement='dec_seq(enc_seq(ws)) == Some(ws)'),
         dict(function='BytecodeWriter::resolve_forward_jumps', contract='every recorded 4-byte slot holds label - start; start < label or refused; all other bytes unchanged'),
     ]
-    not_decided = ['the visitor interface: BytecodeFullIteration::dispatch_instruction (70 arms) IS under contract (unit c18_visitor: the callback of the variant is invoked with exactly the operands of the instruction, '
-                   'against a recording visitor generated from the trait/enum declarations); read() / Iterator::next around it are executed by the replay runner with the same recording visitor (sampled)',
+    not_decided = ['(the visitor interface IS under contract, unit c18_visitor: Iterator::next, BytecodeFullIteration::read and dispatch_instruction (70 arms): a recording visitor generated from the trait/enum declarations '
+                   'receives exactly dec_seq(code), one visit_instruction(start) before each callback; read_instruction enters by the contract unit c18_bytecode proves, the link is checked textually on every run)',
                    'the package clause (Program <-> bytes through the derived bincode impls; refusal of truncated / trailing / corrupted files) is NOT under contract (derive macros and bincode are outside both verifiers): '
                    'it is EXECUTED by the runner c18pkg on programs the real front end emits (decode(encode(p)) == p, same bytes again, every proper prefix and a trailing byte refused, corrupted files decoded in a child process: never a crash): sampled',
                    'dora-compiler/src/wire.rs (hand-written BytecodeType encoding between compiler and runtime): decode(encode(t)) == t with nothing left over, executed on 20 000 generated types per run (sampled)',
